@@ -261,12 +261,24 @@ func (in *kvInst) apply(a kvAct) {
 
 type kvPair struct{ K, V []byte }
 
+// collect drains the iterator. The stream is recorded twice: copied at once, and as the slices the
+// iterator handed out, looked at only after the iteration is over (a caller that gathers the keys of a
+// range and then deletes them keeps those slices; the contract says "readonly", not "valid until Next").
+// A retained slice that no longer shows what it showed when it was returned replaces the pair by a marker.
 func collect(it dbm.Iterator) (out []kvPair) {
-	defer it.Close()
+	var kept []kvPair
 	for ; it.Valid(); it.Next() {
-		out = append(out, kvPair{append([]byte{}, it.Key()...), append([]byte{}, it.Value()...)})
+		k, v := it.Key(), it.Value()
+		kept = append(kept, kvPair{k, v})
+		out = append(out, kvPair{append([]byte{}, k...), append([]byte{}, v...)})
 		if len(out) > 64 {
 			break
+		}
+	}
+	it.Close()
+	for i := range out {
+		if !bytes.Equal(kept[i].K, out[i].K) || !bytes.Equal(kept[i].V, out[i].V) {
+			out[i] = kvPair{[]byte(fmt.Sprintf("RETAINED-SLICE-CHANGED(key %x now reads %x)", out[i].K, kept[i].K)), out[i].V}
 		}
 	}
 	return
